@@ -18,8 +18,6 @@ import os
 import resource
 import signal
 import sys
-import time
-import traceback
 
 RESULT_FORMAT = {"Elf": "ELF", "PE": "PE", "MachO": "MachO", "COFF": "COFF", "HEX": "HEX", "SREC": "SREC",
                  "shellcode": "raw"}
@@ -191,7 +189,7 @@ def stage_of(ev):
     return ORDER[n] if n < 6 else "raw"
 
 
-def finish_events(res, exc, done, jump):
+def finish_events(res, exc, done, jump, data=b""):
     """append the terminal event; -> (events, info)"""
     ev = list(S.ev)
     info = {}
@@ -222,7 +220,12 @@ def finish_events(res, exc, done, jump):
     else:
         cls = type(res).__name__
         f = RESULT_FORMAT.get(cls, "?" + cls)
-        ev.append({"a": "raw" if f == "raw" else "accept", "f": "-" if f == "raw" else f, "e": "-", "cur": 0})
+        e = {"a": "raw" if f == "raw" else "accept", "f": "-" if f == "raw" else f, "e": "-", "cur": 0}
+        if f in ("ELF", "PE", "MachO"):  # what their magic gates look at (read off the input, judged by Ident!MagicOK)
+            e["h"] = list(data[:4])
+            lfanew = int.from_bytes(data[60:64], "little") if data[:2] == b"MZ" and len(data) >= 64 else -1
+            e["g"] = list(data[lfanew:lfanew + 4]) if lfanew >= 0 else []
+        ev.append(e)
         info = {"kind": "return", "result": f, "logres": S.logres or "none"}
     return ev, info
 
@@ -268,7 +271,7 @@ def main():
             rec["parser"] = evs
         else:
             res, exc, done, cput, jump = guarded(lambda: core.read_program(data), cpu)
-            rec["ev"], rec["info"] = finish_events(res, exc, done, jump)
+            rec["ev"], rec["info"] = finish_events(res, exc, done, jump, data)
             rec["cpu"] = round(cput, 4)
         out.write(json.dumps(rec, separators=(",", ":")) + "\n")
         out.flush()
